@@ -4,7 +4,7 @@
 # passes with the mutation, demo fails with the mutation, demo passes without it.
 set -u
 export GOFLAGS=-mod=mod GOPROXY=off GOSUMDB=off GOTOOLCHAIN=local; unset GOWORK
-P=$1; M=$2; SRC=/tmp/seedout/$P/$M; WT=/tmp/seedverify-$P-$M
+P=$1; M=$2; TAG=${3:-$M}; SRC=/tmp/seedout/$P/$M; WT=/tmp/seedverify-$P-$M
 [ -f $SRC/patch.diff ] || { echo "no patch in $SRC"; exit 2; }
 git -C /repo worktree add -q --detach $WT HEAD || exit 2
 trap 'git -C /repo worktree remove --force $WT >/dev/null 2>&1' EXIT
@@ -20,11 +20,16 @@ mut_out=$(timeout 300 bash -c "$RUN" 2>&1); mut_rc=$?
 rm $PKG/zz_seed_demo_test.go
 suite_rc=0; fails=""
 for i in 1 2; do
-  out=$(go test -vet=off -count=1 ./... 2>&1) || { suite_rc=1; fails="$fails $(echo "$out" | grep -E '^(FAIL|--- FAIL)' | tr '\n' ' ')"; }
+  for attempt in 1 2 3; do
+    out=$(go test -vet=off -count=1 ./... 2>&1) && break
+    f=$(echo "$out" | grep -E '^--- FAIL' | grep -v TestJitterTicker)
+    # xtime.TestJitterTicker is a wall-clock test that flakes under load (also on the clean tree): retry when it is the only failure
+    if [ -n "$f" ] || [ $attempt -eq 3 ]; then suite_rc=1; fails="$fails $(echo "$out" | grep -E '^(FAIL|--- FAIL)' | tr '\n' ' ')"; break; fi
+  done
 done
 echo "$P $M: demo clean rc=$clean_rc, demo mutated rc=$mut_rc, suite rc=$suite_rc $fails"
 if [ $clean_rc -eq 0 ] && [ $mut_rc -ne 0 ] && [ $suite_rc -eq 0 ]; then
-  D=/verif/seeded/$P-$M; mkdir -p $D
+  D=/verif/seeded/$P-$TAG; mkdir -p $D
   cp $SRC/patch.diff $D/patch.diff; cp $DEMO $D/zz_seed_demo_test.go
   python3 - "$SRC/meta.json" "$D/meta.json" "$P" <<PY
 import json,sys
